@@ -16,6 +16,8 @@ Template directives (all are `//@...` comment lines inside an ordinary .rs file)
       //@after <k> <text>      ... after that line
       //@rewrite <Rule> [...]  apply a named mechanical rewrite rule (lib/rules.py)
       //@prelude               following plain lines (ghost code) are placed at the start of the body
+      //@subst <old> => <new>  (R12) replace the unique occurrence of <old>; blanks match any whitespace,
+                               `...` matches any bracket-balanced text
       //@assume                keep the contract, replace the body by an external_body stub
   //@arms <src> <Impl>::<name> <scrutinee>          split `match <scrutinee> {..}` into one fn per arm
       (same sub-directives; //@contract is shared by all arms and by the generated dispatcher)
@@ -91,7 +93,7 @@ class Expander:
 
     # ------------------------------------------------------------------------------------
     def expand(self):
-        lines = open(self.tpath).read().split('\n')
+        lines = self.expand_macros(open(self.tpath).read().split('\n'))
         i = 0
         n = len(lines)
         while i < n:
@@ -129,6 +131,34 @@ class Expander:
                 self.out.append(ln)
                 i += 1
         return '\n'.join(self.out) + '\n'
+
+    @staticmethod
+    def expand_macros(lines):
+        """//@define NAME .. //@enddef  defines a block of template lines; //@use NAME pastes it."""
+        macros = {}
+        out = []
+        i = 0
+        while i < len(lines):
+            st = lines[i].strip()
+            if st.startswith('//@define '):
+                name = st.split()[1]
+                j = i + 1
+                blk = []
+                while lines[j].strip() != '//@enddef':
+                    blk.append(lines[j])
+                    j += 1
+                macros[name] = blk
+                i = j + 1
+            elif st.startswith('//@use '):
+                name = st.split()[1]
+                if name not in macros:
+                    raise LostAnchor('template: unknown macro %s' % name)
+                out.extend(macros[name])
+                i += 1
+            else:
+                out.append(lines[i])
+                i += 1
+        return out
 
     # ------------------------------------------------------------------------------------
     def item(self, rel, kind, name, fields):
@@ -180,6 +210,9 @@ class Expander:
                     cur.inserts.append((key, int(k), text.strip(), sink))
                 elif key == 'rewrite':
                     cur.rewrites.append(arg.split())
+                elif key == 'subst':
+                    old, new = arg.split(' => ', 1)
+                    cur.rewrites.append(['R12', old.strip(), new.strip()])
                 elif key == 'assume':
                     cur.assume = True
                 elif key == 'arm':
@@ -318,7 +351,9 @@ class Expander:
     # ------------------------------------------------------------------------------------
     def do_fn(self, directive, block):
         s, fn, rel, qual, rest = self.locate(directive)
-        spec, _ = self.parse_block(block)
+        spec, arms_ = self.parse_block(block)
+        if arms_:
+            raise LostAnchor('template: //@arm inside //@fn %s' % qual)
         newname = None
         if len(rest) >= 2 and rest[0] == 'as':
             newname = rest[1]
